@@ -239,9 +239,10 @@ Definition agree (c : case) : bool :=
 
 (** the template literal evaluates to a line feed followed by what was written *)
 Definition template_ok (out js : str) : bool := option_eqb str_eqb (eval_template js) (Some (LF :: out)).
-(** "light" cases do not carry the JsStringWriter text: there the guards of [template_roundtrip]
-    are evaluated on the model's operation list instead (with [agree] and the theorem they give
-    [template_ok] for the text the real JsStringWriter would have written) *)
+(** "light" cases do not carry the JsStringWriter text: there only the guards of [template_roundtrip]
+    are evaluated, on the model's operation list (the text the real JsStringWriter writes, which
+    depends on how the real printer chunks its writes, is compared in the "full", server and module
+    cases) *)
 Definition template_ok_opt (model_ops : list wop) (out : str) (js : option str) : bool :=
   match js with
   | Some j => template_ok out j
